@@ -56,6 +56,20 @@ Theorem C11_limits_bytes :
 Proof. exact limits_bytes_lemma. Qed.
 Print Assumptions C11_limits_bytes.
 
+(* 2b'. the byte counter handed to the encoder (encodeChunkParams.NumBytes, not transmitted): the exact body size
+   in the Forward modes; for Datadog one more than the body "[r1,...,rn]" (the first record is counted with a
+   comma it does not have) - the limit check nevertheless bounds the real body, see C11_limits. *)
+Theorem C11_num_bytes_accounting :
+  forall (R : Type) (rlen : R -> Z) (cfg : config) (ops : list (op R)),
+  let (st', em) := run R rlen cfg pstate_init ops in
+  Forall (fun e => e_num_bytes e =
+                   match cf_kind cfg with
+                   | KForward => body_size R rlen KForward (e_records e)
+                   | KDatadog => body_size R rlen KDatadog (e_records e) + 1
+                   end) em.
+Proof. exact num_bytes_lemma. Qed.
+Print Assumptions C11_num_bytes_accounting.
+
 (* 2c. roll-over exactly before the record that does not fit: in every reachable state, WriteStream emits a
    chunk iff something is buffered and the buffer plus the new record would exceed a limit ([fits] is the
    specification's notion, over the specified body size); the emitted chunk is the whole buffer and the new
@@ -144,6 +158,15 @@ Theorem C11_packer_ids_unique_ordered :
   Forall (fun id => id_shape_ok (cf_suffix cfg) id = true) (map e_id em ++ cur_ids st').
 Proof. exact packer_ids_lemma. Qed.
 Print Assumptions C11_packer_ids_unique_ordered.
+
+(* 3d'. the 8-digit bound on the sequence number is needed for the ORDER: with sequence 10^8 (nine digits) the id
+   sorts before the id with sequence 10^8 - 1 generated earlier at the same reading. *)
+Theorem C11_sequence_width_refuted :
+  exists t s1 s2 : Z, (0 <= t < 10 ^ 19 /\ 0 <= s1 < s2 /\ s2 = 10 ^ 8) /\
+    ~ lex_lt (format_id suffix_ff (t, s1)) (format_id suffix_ff (t, s2)) /\
+    lex_lt (format_id suffix_ff (t, s2)) (format_id suffix_ff (t, s1)).
+Proof. exact sequence_width_refuted_lemma. Qed.
+Print Assumptions C11_sequence_width_refuted.
 
 (* 3e. clock_backwards_refuted: the monotone-clock hypothesis is needed.  Readings 100, 100, 101, 100 (all
    valid, but the last one steps back) make the generator return the id 100-00000001 twice.  The wall clock
